@@ -51,3 +51,8 @@ package sourcemap
 //@   prop C07
 //@   site rebase: call encodeVLQ requires len(shifts) <= 1 || !(shifts[1].Before.Lines < generated.Lines ||
 //@       (shifts[1].Before.Lines == generated.Lines && shifts[1].Before.Columns < generated.Columns))
+
+// C07: in the "mappings" string a generated COLUMN is relative to the previous segment of the same line and starts
+// from 0 on every new line (source map v3, `;`). The correction carried from one path substitution to the next is a
+// column quantity, so it does not survive a line break.
+//@ flow column-correction-does-not-survive-a-line-break C07: func=(SourceMapPieces).Finalize ; in=sourcemap ; site=store LineColumnOffset.Lines ; then-updates=prevShiftColumnDelta
